@@ -340,6 +340,12 @@ def run_history(sc, kind, unix, rng, hidx):
             for e in c.errors:
                 sc.inconclusive("%s/%s history %d: client call failed before close: %s" % (kind, transport, hidx, e[:200]))
         before = sp.state()
+        for _ in range(20):                  # let every accepted client reach its on_connect before the reference sample
+            time.sleep(0.25)
+            again = sp.state()
+            if again["on_connect"] == before["on_connect"]:
+                break
+            before = again
         # ---------------------------------------------------------------- close
         rep = sp.close_server()
         t_closed = time.time()
